@@ -595,6 +595,8 @@ def goals_for(draw, prog, meta, max_goals=3, maxdeg=3):
     pool = assigned if assigned else sorted(L.stmts_assigned(prog["init"]))
     k = draw(st.integers(1, max_goals))
     out = []
+    if "k" in pool and draw(st.integers(0, 2)) > 0:
+        out.append({"k": 1})  # the counter of the directed templates observes which branches ran
     for _ in range(k):
         deg = draw(st.integers(1, maxdeg))
         mono = {}
